@@ -442,6 +442,12 @@ let () =
           | "repl" :: rest -> handle_repl rest
           | "debug" :: rest -> handle_debug rest
           | "cli" :: rest -> handle_cli rest
+          | "listingraw" :: fname :: text :: ids ->
+            (* listingraw <file name> <text> <i.j.k>: what the debugger echoes for these command indices (raw = true) *)
+            let cmds = parse (cps_of_field text) in
+            let want = match ids with [] -> [] | t :: _ -> List.map int_of_string (List.filter (fun x -> x <> "") (String.split_on_char '.' t)) in
+            let es = List.filter_map (fun i -> match List.nth_opt cmds i with Some c -> Some (n_of_int i, c) | None -> None) want in
+            (match listing_text true (cps_of_field fname) es with Some t -> "ok:" ^ dotted t | None -> "panic")
           | "listing" :: fname :: rest ->
             (* listing <file name> <text>: the text `hyeong check` prints for the file (Model/Listing.v), or panic *)
             let text = match rest with [] -> [] | t :: _ -> cps_of_field t in
